@@ -315,6 +315,9 @@ func (ex *Exec) callContract(fr *Frame, st *State, fn *ssa.Function, fc *FuncCon
 	post := &Env{ex: ex, st: st, old: pre, vars: env.vars, pkg: env.pkg, results: results, resultNames: resultNames(fn)}
 	ex.applyGhost(post, fc, st)
 	for _, e := range fc.Ensures {
+		if mentionsCallLog(e.E) {
+			continue // clauses about the callee's own outgoing calls are local to its verification
+		}
 		ex.assume(st, ex.evalBool(post, e.E))
 	}
 	ex.callLog = append(ex.callLog, &CallRec{Guard: pre.PC(), Key: fn.Name(), Args: args, Results: results, Pre: pre, Post: st.clone(), Seq: len(ex.callLog), Pos: pos})
@@ -565,4 +568,42 @@ func (ex *Exec) appendOp(fr *Frame, st *State, s, t Val) Val {
 	r1 := mkSlice(s.T, sliceArr(s), sliceOff(s), newLen, sliceCap(s))
 	r2 := mkSlice(s.T, id, BVI(0, 64), newLen, ncap)
 	return iteVal(fits, r1, r2)
+}
+
+func mentionsCallLog(e Expr) bool {
+	found := false
+	var rec func(e Expr)
+	rec = func(e Expr) {
+		switch x := e.(type) {
+		case *ECall:
+			if id, ok := x.Fun.(*EIdent); ok {
+				switch id.Name {
+				case "calls", "callarg", "callres", "atcall", "aftercall", "isclosure", "binding":
+					found = true
+				}
+			}
+			rec(x.Fun)
+			for _, a := range x.Args {
+				rec(a)
+			}
+		case *EUnary:
+			rec(x.X)
+		case *EBinary:
+			rec(x.X)
+			rec(x.Y)
+		case *EIndex:
+			rec(x.X)
+			rec(x.I)
+		case *ESlice:
+			rec(x.X)
+		case *ESel:
+			rec(x.X)
+		case *EQuant:
+			rec(x.Body)
+		case *EOld:
+			rec(x.X)
+		}
+	}
+	rec(e)
+	return found
 }
